@@ -156,6 +156,11 @@ def _check(inp):
         if lang != "python" or width != 80 or indentation != "    ":
             return None
         wrap = _emit_via_python_generator
+    if inp.get("via") == "get_code":
+        # through the Fortran generator's own call site (CodeGenerator.get_code): width 80, one blank per level
+        if lang != "fortran" or width != 80 or indentation != " ":
+            return None
+        wrap = _wrap_via_fortran_get_code
     try:
         out = wrap(line, level=level, width=width, indentation=indentation)
     except Exception as ex:
@@ -357,6 +362,27 @@ def _emit_via_python_generator(line, level, width, indentation):
     if cg._class_emitter.lines:
         raise AssertionError("_emit wrote to the class emitter")
     return list(cg._emitter.lines)
+
+
+class _StubModuleEmitter:
+    def __init__(self, code):
+        self.code = code
+        self.preamble = []
+
+
+def _wrap_via_fortran_get_code(line, level, width, indentation):
+    """the lines dagrt.codegen.fortran.CodeGenerator.get_code produces for one emitted line at nesting depth `level`, with
+    the indentation it puts in front of every produced line taken off again"""
+    from dagrt.codegen.fortran import CodeGenerator
+    cg = CodeGenerator.__new__(CodeGenerator)
+    cg.module_emitter = _StubModuleEmitter([level * " " + line])
+    out = cg.get_code().split("\n")
+    res = []
+    for l_ in out:
+        if not l_.startswith(level * " "):
+            raise AssertionError("get_code dropped the indentation of a produced line: %r" % (l_,))
+        res.append(l_[level:])
+    return res
 
 
 # {{{ input generation
@@ -661,6 +687,17 @@ def bounded(payload):
             run({"lang": "python", "line": line, "level": level, "width": 80, "indentation": "    ", "via": "emitter"})
             n_em += 1
     parts["through_the_python_emitter_call_site"] = n_em
+
+    # ---- through the Fortran generator's own call site (get_code) ----
+    n_gc = 0
+    gc_lines = ["call f(aaaa, bbbb, cccc, dddd, eeee, ffff, gggg, hhhh, iiii, jjjj, kkkk, llll, mmmm, nnnn, oooo, pppp)",
+                "write(dagrt_stderr,*) 'two  blanks and a rather long message that makes this line wrap around', lploc_x",
+                "x = a1 + b2 * c3 - d4 + e5 * f6 - g7 + h8 * i9 - j10 + k11 * l12 - m13 + n14 * o15 - p16 + q17 + r18"]
+    for line in gc_lines + [l_.strip() for l_ in sorted(set(rl["fortran"])) if not l_.strip().startswith("!")][:60]:
+        for level in (0, 3, 8):
+            run({"lang": "fortran", "line": line, "level": level, "width": 80, "indentation": " ", "via": "get_code"})
+            n_gc += 1
+    parts["through_the_fortran_get_code_call_site"] = n_gc
 
     # ---- seeded random statements from small grammars ----
     for i in range(n_random):
